@@ -257,7 +257,7 @@ def cmd_tests(path, jobs):
     print("suite-surviving mutants:", len(surv), "of", len(doc["mutants"]))
 
 
-def cmd_checks(path, limit, allchecks=False):
+def cmd_checks(path, limit, allchecks=False, maxchecks=0):
     doc = json.load(open(path))
     surv = [m for m in doc["mutants"] if m.get("tests") == "pass" and "killed_by" not in m]
     if limit:
@@ -280,6 +280,8 @@ def cmd_checks(path, limit, allchecks=False):
                         first += cs
                 first = [c for i, c in enumerate(first) if c in order and c not in first[:i]]
                 order = first + [c for c in order if c not in first]
+                if maxchecks:
+                    order = order[:maxchecks]
                 if allchecks:
                     order = order + [c for c in ["C%02d" % i for i in range(1, 20)] if c not in order]
                 for c in order:
@@ -317,4 +319,5 @@ if __name__ == "__main__":
     elif a[0] == "tests":
         cmd_tests(a[1], int(a[a.index("-j") + 1]) if "-j" in a else 12)
     elif a[0] == "checks":
-        cmd_checks(a[1], int(a[a.index("--limit") + 1]) if "--limit" in a else 0, "--all" in a)
+        cmd_checks(a[1], int(a[a.index("--limit") + 1]) if "--limit" in a else 0, "--all" in a,
+                   int(a[a.index("--max-checks") + 1]) if "--max-checks" in a else 0)
